@@ -7,7 +7,7 @@
    brute-force oracle of the check. *)
 From Coq Require Import List ZArith Bool Arith.
 From PV Require Import Model.Term Model.Subst Model.Unify Model.FD Model.State Proofs.FDProofs Proofs.FDPropProofs Model.Engine Proofs.UnifyProofs Proofs.DiseqProofs Proofs.MonoProofs Proofs.DenProofs Proofs.FDDen
-  Proofs.ElabAll Proofs.Acyc Proofs.AcycState Proofs.FDComp Proofs.FDEq Proofs.FDProg Proofs.Complete0.
+  Proofs.ElabAll Proofs.Acyc Proofs.AcycState Proofs.FDComp Proofs.FDEq Proofs.FDProg Proofs.Complete0 Proofs.KeyStream Proofs.BodyInv Proofs.QStream.
 Import ListNotations.
 Local Open Scope Z_scope.
 
@@ -147,6 +147,52 @@ Proof.
     + exists 1%Z, 1%Z, 2%Z. unfold numv, in_isize, isize_min, isize_max. cbn. repeat split; try reflexivity; Lia.lia.
 Qed.
 
+(* ------------------------------------------------------------------ quiescence: nothing is stored unchecked *)
+(* In every state of every stream of every goal the front end elaborates, a stored arithmetic constraint
+   still has an operand that does not resolve to a number: a constraint whose operands are all known
+   has been decided (C16_*_ground) and removed; none is left stored with stale operands.  QInv also
+   carries the uniqueness of constraint identities and the unbound keys of stored disequalities. *)
+Theorem C16_quiescent_everywhere : forall defs n g st,
+  QInv st -> body g -> pbS QInv (start defs n g st).
+Proof. exact start_quiescent. Qed.
+Theorem C16_quiescent_answers : forall defs k used s a rest used',
+  pbS QInv s -> next defs k used s = NAnswer a rest used' -> QInv a /\ pbS QInv rest.
+Proof. exact next_quiescent. Qed.
+Theorem C16_quiescent_initial : forall n, QInv (empty_state n).
+Proof. exact qinv_empty. Qed.
+Theorem C16_quiescent_ops : forall st,
+  QInv st ->
+  (forall u v, sresPb QInv (state_unify st u v)) /\ (forall u v, sresPb QInv (state_disunify st u v)) /\
+  (forall x d, sresPb QInv (post_domain x d st)) /\ (forall c, sresPb QInv (post_constraint c st)).
+Proof.
+  intros st A. repeat split; intros.
+  - apply qinv_unify, A.
+  - apply qinv_disunify, A.
+  - apply qinv_dom, A.
+  - apply qinv_post, A.
+Qed.
+Theorem C16_stored_not_ground3 : forall st id u v w, QInv st ->
+  In (id, KPlus u v w) (st_cstore st) \/ In (id, KMinus u v w) (st_cstore st) \/ In (id, KTimes u v w) (st_cstore st) \/
+  In (id, KPlusZ u v w) (st_cstore st) \/ In (id, KTimesZ u v w) (st_cstore st) ->
+  ~ (exists a b r, wk (st_smap st) u = tnum a /\ wk (st_smap st) v = tnum b /\ wk (st_smap st) w = tnum r).
+Proof. exact stored_not_ground. Qed.
+Theorem C16_stored_not_ground2 : forall st id u v, QInv st ->
+  In (id, KLte u v) (st_cstore st) \/ In (id, KDiseqFd u v) (st_cstore st) ->
+  ~ (exists a b, wk (st_smap st) u = tnum a /\ wk (st_smap st) v = tnum b).
+Proof. exact stored_not_ground2. Qed.
+
+(* non-vacuity: the answer of the example program above still stores x + 1 = y, and it is quiescent *)
+Example C16_quiescent_example :
+  exists a rest k, next [] 100 0 (start [] sfuel C16_exg (empty_state 2)) = NAnswer a rest k /\
+    st_cstore a = [(0%nat, KPlus (TVar 0 false) (TVal (LNum 1)) (TVar 1 false))] /\ QInv a.
+Proof.
+  assert (B : body C16_exg) by (apply (elab_all A_body A_body_elab)).
+  pose proof (C16_quiescent_everywhere [] sfuel C16_exg (empty_state 2) (C16_quiescent_initial 2) B) as P.
+  destruct (next [] 100 0 (start [] sfuel C16_exg (empty_state 2))) as [a rest k| | |] eqn:E; try (vm_compute in E; discriminate).
+  exists a, rest, k. split; [reflexivity|]. split; [vm_compute in E; inversion E; reflexivity|].
+  apply (C16_quiescent_answers _ _ _ _ _ _ _ P E).
+Qed.
+
 Check C16_plusfd_ground : forall rcs rc id st u v w a b r,
   num (wk (st_smap st) u) a -> num (wk (st_smap st) v) b -> num (wk (st_smap st) w) r ->
   run_constraint rcs rc id (KPlus u v w) st = if Z.eqb (a + b) r then SOk st else SFail.
@@ -165,3 +211,9 @@ Print Assumptions C16_eq_sound.
 Print Assumptions C16_whole_program.
 Print Assumptions C16_elab_keeps_domains.
 Print Assumptions C16_initial_good.
+Print Assumptions C16_quiescent_everywhere.
+Print Assumptions C16_quiescent_answers.
+Print Assumptions C16_quiescent_initial.
+Print Assumptions C16_quiescent_ops.
+Print Assumptions C16_stored_not_ground3.
+Print Assumptions C16_stored_not_ground2.
